@@ -91,6 +91,31 @@ INFO = {
              "3D vector communicator, >= 2048 markers with overlapping windows, more than one numba thread (data race in the spreading)"),
     "C20c": ("passive-transport simulator forms dt/dx and nu dt/dx^2 from an inverse spacing grid_size[0]/x_range (y or z cell count instead of x)",
              "PassiveTransportFlowSimulator on a non-square / non-cubic grid (grid_size[0] != grid_size[-1])"),
+    # ---- round 4 (seeded/<id>d)
+    "C01d": ("2D forcing wrapper calls the inner Navier-Stokes step without forwarding free_stream_velocity (falls back to zeros)",
+             "2D simulator with with_forcing=True AND with_free_stream_flow=True and a non-zero free stream"),
+    "C03d": ("3D unbounded solver sizes its doubled FFT buffers with pyfftw.next_fast_len(2n); the evenly reflected Green's table is copied into the low corner of the padded buffer",
+             "3D, an axis length n whose 2n has a prime factor above 13 (n = 17, 19, 23, 29, 31, ...)"),
+    "C06d": ("local-support kernel: nearest index from floor((x - shift) * inv_dx), distances from (x - shift) % dx (two roundings that can disagree)",
+             "non-dyadic dx and a marker coordinate on a cell centre up to rounding (5-40% of the centres)"),
+    "C08d": ("2D cylinder grid stores the lab-frame z torque without the director entry Q[2,2] (`the axis is along z`)",
+             "2D cylinder whose axis points along -z (Q[2,2] = -1)"),
+    "C09d": ("2D edge rod grid: lab-frame angular velocity replaced by z_hat (d1.z) omega_local[0] (`the rod only spins about its normal`)",
+             "edge forcing grid of a planar rod whose normal d1 is not along +-z (in-plane normal: d2 carries the spin), non-zero angular velocity"),
+    "C10d": ("compute_interaction_on_lag_grid (body-force path) evaluates the marker velocities BEFORE the marker positions (stale moment arms)",
+             "compute_flow_forces_and_torques on a rotating body whose orientation changed since the previous evaluation; rigid-body / edge / surface grids"),
+    "C11d": ("3D fast-diagonalisation solver builds one tridiagonal matrix for the longest axis and uses leading blocks (views) for the others; the in-place Neumann corner writes of a shorter axis land inside the longer ones",
+             "3D, non-cubic grid"),
+    "C13d": ("3D vector diffusion-flux wrapper resets the boundary ring of all components unconditionally (ignoring reset_ghost_zone)",
+             "field_type='vector', reset_ghost_zone=False, output array with non-zero ring"),
+    "C16d": ("Navier-Stokes simulators pass kinematic_viscosity / flow_density to the stable-time-step helper",
+             "Navier-Stokes simulator with flow_density > 1 in a diffusion-limited regime"),
+    "C17d": ("every floating-point create_dataset in save passes dtype=self.real_dtype: arrays wider than the registry's declared precision are rounded on disk",
+             "float32 registry (IO or CosseratRodIO) holding float64 arrays"),
+    "C18d": ("virtual-boundary forcing rebuilds its interpolation stencil only when np.allclose(positions, positions at last build) fails",
+             "slowly moving body (marker displacement < 1e-8 + 1e-5 |x| per evaluation), checkpoint taken while the live stencil is stale"),
+    "C19d": ("3D Laplacian filter: z stencil written with the opposite sign of the x and y stencils",
+             "odd filter order (1, 3), field varying along z"),
 }
 
 
@@ -108,7 +133,7 @@ def main():
                 ev.update(json.load(open(os.path.join(d, evn))))
         meta = {
             "breaks_property": sid[:3],
-            "round": 3 if sid.endswith("c") else 2 if sid.endswith("b") else 1,
+            "round": 4 if sid.endswith("d") else 3 if sid.endswith("c") else 2 if sid.endswith("b") else 1,
             "change": what,
             "files": files,
             "needs_to_manifest": needs,
